@@ -64,7 +64,12 @@ class Harness:
     @property
     def flavour(self):
         if self.where == "incrate":
-            return "incrate-nodebug" if "nodebug" in self.flags else "incrate"
+            f = "incrate"
+            if "nodebug" in self.flags:
+                f += "-nodebug"
+            if "nomiri" in self.flags:
+                f += "-nomiri"
+            return f
         f = "ext"
         if "nostd" in self.flags:
             f += "-nostd"
@@ -167,7 +172,7 @@ def flavour_cfg(fl):
     extra = []
     if fl.startswith("incrate"):
         cwd = REPO
-        feat = ["--features", "serde"] if False else []
+        feat = []
     else:
         cwd = EXT
         if "-nostd" in fl:
@@ -176,6 +181,8 @@ def flavour_cfg(fl):
             feat = ["--features", "extra"]
     if "-nodebug" in fl:
         rf += " -C debug-assertions=off"
+    if "-nomiri" in fl:
+        rf = rf.replace("--cfg miri ", "")
     if "-safety" in fl:
         extra = ["--prove-safety-only"]
     return cwd, rf, feat, extra
@@ -307,8 +314,8 @@ def run_all(harnesses, tier_timeout, mem_kb, on_result=None, nworkers=None):
         t.start()
     for t in ts:
         t.join()
-    order = {h.name: i for i, h in enumerate(harnesses)}
-    results.sort(key=lambda r: order[r.h.name])
+    order = {(h.name, h.flavour): i for i, h in enumerate(harnesses)}
+    results.sort(key=lambda r: order[(r.h.name, r.h.flavour)])
     return results, bad, build_s
 
 
@@ -420,6 +427,15 @@ def parse_output(r):
         r.verdict, r.reason = "INCONCLUSIVE", "kani verdict %s without identified failing check" % r.kani_verdict
         return
     r.verdict = "PASS"
+
+
+def variant(h, extra_flag):
+    """copy of a harness that runs in another build flavour (C16: debug assertions off / feature sets / cfg twin)"""
+    import copy
+    v = copy.copy(h)
+    v.flags = set(h.flags) | {extra_flag}
+    v.note = (h.note + "+" if h.note else "") + extra_flag
+    return v
 
 
 def functions_encoded(results):
